@@ -80,6 +80,9 @@ def call_digest(seq, regex, p, style):
         return mokapot.digest(seq, regex)
     mc, lo, hi, clip, semi = p
     if style == 1:      # compiled pattern, positional arguments
+        if (mc + lo) % 2 == 1 and seq == seq.upper():
+            # ... compiled WITH a flag: the same enzyme written in lower case and matched case-insensitively
+            return mokapot.digest(seq, re.compile(regex.lower(), re.IGNORECASE), mc, clip, lo, hi, semi)
         return mokapot.digest(seq, re.compile(regex), mc, clip, lo, hi, semi)
     return mokapot.digest(seq, enzyme_regex=regex, missed_cleavages=mc, clip_nterm_methionine=clip,
                           min_length=lo, max_length=hi, semi=semi)
